@@ -57,12 +57,16 @@ def header(e):
     return mode, count, parse_prog(p["prog"])
 
 
+def is_huge_jump(e):
+    return e.get("k") in ("tick", "spur") and e.get("now_us", 0) > NOW_CAP
+
+
 def cut(events):
     """A fired huge timer (INT64_MAX/2 ns and more) moves the virtual clock by centuries, which the 32 bit
     integers of TLC cannot represent next to microsecond timeouts: such an execution is validated up to
     (not including) that timer event."""
     for i, e in enumerate(events):
-        if e.get("k") == "tick" and e.get("now_us", 0) > NOW_CAP:
+        if is_huge_jump(e):
             return events[:i]
     return events
 
@@ -107,9 +111,9 @@ def normalise(events):
             wbase = int(e["params"].get("wbase", 0))
             out.append(dict(DEF, k="reset", mode=mode, count=count, fx0=(READY - wbase) if wbase > 0 else 0, prog=prog))
             continue
-        if k == "tick":
+        if k in ("tick", "spur"):
             now = clip(e["now_us"])
-            out.append(dict(DEF, k="tick", t=e["wakes"], now=now))
+            out.append(dict(DEF, k=k, t=e["wakes"], now=now))
             continue
         if k in SCHED:
             continue
@@ -136,7 +140,7 @@ def normalise(events):
             elif k == "fwait":
                 n["loc"], n["a"], n["v"], n["ok"] = loc, fv(e["exp"]), fv(e["cur"]), e["res"] == "block"
             elif k == "fret":
-                n["loc"], n["ok"] = loc, e["res"] == "woken"
+                n["loc"], n["ok"] = loc, e["res"] in ("woken", "spurious", "eintr")
             elif k == "fwake":
                 n["loc"], n["v"] = loc, e["woken"]
             else:
@@ -198,8 +202,8 @@ def monitor_lines(events):
             mode, count, prog = header(e)
             now = 0
             out.append(dict(D, k="reset", mode=mode, count=count, must=must_finish(mode, count, prog)))
-        elif k == "tick":
-            now = clip(e["now_us"])
+        elif k in ("tick", "spur"):
+            now = clip(e["now_us"])       # a spurious return of a timed wait happens some virtual time into the wait
         elif k in ("call", "ret"):
             out.append(dict(D, k=k, t=e["t"], op=e["op"], n=op_n(e["op"], e["arg"]), id=e["id"], res=e.get("res", 0), now=now))
         elif k in ("cbb", "cbe"):
